@@ -668,3 +668,14 @@ Proof.
   unfold s. rewrite run_app, Stuck.reach. destruct (Stuck.stuck_run evs []) as (k & ->).
   repeat split; simpl in *; intuition (subst; auto).
 Qed.
+
+(* ------------------------------------------------------------------ a concrete run used by the non-vacuity examples of Props/P_C11.v *)
+Definition nv_cfg := mkCfg 8 3 1 2.
+Definition nv_a := mkItem 1 7 1.      (* xid 1, branch 7, resource 1 *)
+Definition nv_b := mkItem 2 7 1.      (* same branch id under another xid: never committed *)
+Definition nv_c := mkItem 1 8 2.      (* same xid, another branch, another resource *)
+Definition nv_evs :=
+  [Accept nv_a; Accept nv_c; Recv; Recv; Submit; Start 1;
+   WStep 0 ConnFail; WStep 0 Ok; WStep 0 Ok; WStep 0 DelFail].
+Definition nv_s := run nv_cfg nv_evs (init [nv_a; nv_b; nv_c] [1%N; 2%N]).
+
